@@ -1,6 +1,353 @@
-//! C17 — not built yet (stub; replaced by the real check).
+//! C17 — segwit address checksums detect every one- and two-character corruption.
+use std::str::FromStr;
+
+use elements::Address;
+use serde_json::json;
+
 use crate::engine::*;
+use crate::gen::pool;
+use crate::props::c06::{from_lib, gen_ref_segwit, lib_params};
+use crate::refimpl::addr::{self as ra, RefAddr, RefPayload, NETS};
+
+/// length classes of the design: (version selector, program length); selector 2 = "2..=16"
+const CLASSES: [(u8, usize); 6] = [(0, 20), (0, 32), (1, 32), (2, 2), (2, 20), (2, 40)];
+const N_CLASS: u64 = 12; // 6 length classes x {unblinded, blinded}
+
+/// representatives whose corruptions are enumerated completely.
+/// quick: one per (length class, blinded) = 12, network and letter case rotating with the class
+/// and the run seed; thorough: every (class, blinded, network, case) with two payloads each.
+/// (A failing parse costs about 0.55 us, the twelve classes have 39.7 M corruptions, each parsed
+/// four times: about 90 CPU-seconds per dozen representatives.)
+fn n_reps(tier: Tier) -> u64 {
+    tier.pick(12, 144)
+}
+/// representatives of the (cheap) human-readable-part enumeration: all 72 shapes, 1 / 4 payloads
+fn n_hrp_reps(tier: Tier) -> u64 {
+    tier.pick(72, 288)
+}
+
+struct Rep {
+    id: u64,
+    net: usize,
+    blinded: bool,
+    class: (u8, usize),
+    upper: bool,
+}
+
+/// for a fixed class the six values of k give the six (network, case) combinations
+fn rep_shape(r: u64, rot: u64) -> Rep {
+    let c12 = r % N_CLASS;
+    let k = (r / N_CLASS + rot) % 6;
+    Rep {
+        id: r,
+        net: ((k + c12) % 3) as usize,
+        blinded: c12 >= 6,
+        class: CLASSES[(c12 % 6) as usize],
+        upper: (k / 3 + c12) % 2 == 1,
+    }
+}
+
+/// number of characters after the separator (version + payload + checksum)
+fn data_chars(rep: &Rep) -> u64 {
+    let bytes = rep.class.1 + if rep.blinded { 33 } else { 0 };
+    (1 + (bytes * 8 + 4) / 5 + if rep.blinded { 12 } else { 6 }) as u64
+}
+
+fn rep_addr(rep: &Rep, seed: u64) -> RefAddr {
+    let bytes = seeded_bytes(seed, rep.id, 48);
+    let version = match rep.class.0 {
+        2 => 2 + bytes[40] % 15,
+        v => v,
+    };
+    let blinder = if rep.blinded {
+        let p = pool();
+        Some(p.pubkeys[(bytes[41] as usize) % p.pubkeys.len()].serialize().to_vec())
+    } else {
+        None
+    };
+    RefAddr { net: rep.net, payload: RefPayload::Wit { version, program: bytes[..rep.class.1].to_vec() }, blinder }
+}
+
+fn rep_string(rep: &Rep, seed: u64) -> String {
+    let s = rep_addr(rep, seed).encode();
+    if rep.upper {
+        s.to_ascii_uppercase()
+    } else {
+        s
+    }
+}
+
+fn rep_label(rep: &Rep) -> String {
+    format!(
+        "{}{}/v{}/{}/{}/{}",
+        if rep.blinded { "blech32" } else { "bech32" },
+        if rep.class.0 == 0 { "" } else { "m" },
+        match rep.class.0 {
+            2 => "2..16".to_string(),
+            v => v.to_string(),
+        },
+        rep.class.1,
+        NETS[rep.net].name,
+        if rep.upper { "upper" } else { "lower" }
+    )
+}
+
+fn alphabet(upper: bool) -> [u8; 32] {
+    let mut a = *ra::CHARSET;
+    if upper {
+        a.make_ascii_uppercase();
+    }
+    a
+}
+
+/// all four parsers on one string; bit i set = parser i accepted
+fn parse_mask(s: &str) -> u8 {
+    let mut m = 0u8;
+    if Address::from_str(s).is_ok() {
+        m |= 1;
+    }
+    for i in 0..3 {
+        if Address::parse_with_params(s, lib_params(i)).is_ok() {
+            m |= 2 << i;
+        }
+    }
+    m
+}
+
+fn accepted_failure(orig: &str, bad: &str, mask: u8, what: &str) -> Failure {
+    let how: Vec<String> = (0..4)
+        .filter(|i| mask >> i & 1 == 1)
+        .map(|i| if i == 0 { "from_str".to_string() } else { format!("parse_with_params({})", NETS[i - 1].name) })
+        .collect();
+    let parsed = Address::from_str(bad)
+        .ok()
+        .or_else(|| (0..3).find_map(|i| Address::parse_with_params(bad, lib_params(i)).ok()))
+        .and_then(|a| from_lib(&a).ok())
+        .map(|r| format!("{:?}", r))
+        .unwrap_or_default();
+    let diff: Vec<usize> = orig.bytes().zip(bad.bytes()).enumerate().filter(|(_, (a, b))| a != b).map(|(i, _)| i).collect();
+    Failure::new(format!(
+        "{}: {:?} (valid address {:?} with the characters at string positions {:?} replaced) is accepted by {} as {}",
+        what,
+        bad,
+        orig,
+        diff,
+        how.join(", "),
+        parsed
+    ))
+}
+
+/// One guarded evaluation of all four parsers on the corrupted buffer
+fn check_rejected(orig: &str, buf: &[u8], what: &str) -> R {
+    let Ok(s) = std::str::from_utf8(buf) else {
+        return Err(Failure::panic("corrupted buffer is not ASCII".into(), "src/props/c17.rs".into()));
+    };
+    let mask = guard::guard("Address parsers", s.len(), || parse_mask(s))?;
+    if mask != 0 {
+        let f = guard::guard("Address parsers", s.len(), || accepted_failure(orig, s, mask, what))?;
+        return Err(f);
+    }
+    Ok(())
+}
+
+fn total_chunks(tier: Tier) -> u64 {
+    // the number of data characters depends on the class only, not on the rotation
+    (0..n_reps(tier)).map(|r| data_chars(&rep_shape(r, 0))).sum()
+}
+
+/// index = (representative, first corrupted position); enumerates every replacement character at
+/// that position alone and together with every replacement at every later position
+fn single_and_double_exhaustive(idx: u64, seed: u64, ctx: &mut Ctx) -> R {
+    let mut rest = idx;
+    let mut r = 0u64;
+    let rot = splitmix(seed) % 6;
+    let rep = loop {
+        let rep = rep_shape(r, rot);
+        let n = data_chars(&rep);
+        if rest < n {
+            break rep;
+        }
+        rest -= n;
+        r += 1;
+        if r > 100_000 {
+            return Err(Failure::panic("chunk index out of range".into(), "src/props/c17.rs".into()));
+        }
+    };
+    let p = rest as usize;
+    let orig = rep_string(&rep, seed);
+    let n = data_chars(&rep) as usize;
+    let Some(sep) = orig.rfind('1') else {
+        return Err(Failure::panic("representative without separator".into(), "src/props/c17.rs".into()));
+    };
+    let ds = sep + 1;
+    if orig.len() - ds != n {
+        return Err(Failure::panic(
+            format!("representative {} has {} data characters, expected {}", orig, orig.len() - ds, n),
+            "src/props/c17.rs".into(),
+        ));
+    }
+    if p == 0 {
+        // the uncorrupted representative is a valid address (otherwise the enumeration is vacuous)
+        let ok = guard::guard("Address::from_str", orig.len(), || Address::from_str(&orig).is_ok())?;
+        if !ok {
+            return Err(Failure::new(format!("representative {:?} ({}) does not parse", orig, rep_label(&rep))));
+        }
+        ctx.class(&format!("representative:{}", rep_label(&rep)));
+        if ctx.wants_sample("representative") {
+            ctx.sample("representative", || json!({"representative": rep_label(&rep), "address": orig, "data_characters": n,
+                "corruptions_enumerated": 31 * n + 961 * (n * (n - 1) / 2)}));
+        }
+    }
+    let alpha = alphabet(rep.upper);
+    let mut buf = orig.clone().into_bytes();
+    let op = buf[ds + p];
+    let label = "one/two-character corruption of the data part";
+    let mut strings = 0u64;
+    for &c in alpha.iter() {
+        if c == op {
+            continue;
+        }
+        buf[ds + p] = c;
+        check_rejected(&orig, &buf, label)?;
+        strings += 1;
+        for q in p + 1..n {
+            let oq = buf[ds + q];
+            for &d in alpha.iter() {
+                if d == oq {
+                    continue;
+                }
+                buf[ds + q] = d;
+                check_rejected(&orig, &buf, label)?;
+                strings += 1;
+            }
+            buf[ds + q] = oq;
+        }
+    }
+    ctx.evals_n(4 * strings);
+    ctx.class_n(if rep.blinded { "corrupted-strings:blinded" } else { "corrupted-strings:unblinded" }, strings);
+    ctx.class_n(if p == 0 { "corrupted-strings:version-character-involved" } else { "corrupted-strings:version-character-intact" }, strings);
+    ctx.nontrivial(&(rep.id, p));
+    Ok(())
+}
+
+/// every one- and two-character replacement of the human-readable part over [a-z0-9]
+/// (upper-case letters for upper-case representatives)
+fn hrp_corruptions(idx: u64, seed: u64, ctx: &mut Ctx) -> R {
+    let rep = rep_shape(idx, 0);
+    let orig = rep_string(&rep, seed ^ 0x6872_70);
+    let Some(sep) = orig.rfind('1') else {
+        return Err(Failure::panic("representative without separator".into(), "src/props/c17.rs".into()));
+    };
+    let alpha: Vec<u8> = if rep.upper {
+        b"ABCDEFGHIJKLMNOPQRSTUVWXYZ0123456789".to_vec()
+    } else {
+        b"abcdefghijklmnopqrstuvwxyz0123456789".to_vec()
+    };
+    let label = "one/two-character corruption of the human-readable part";
+    let mut buf = orig.clone().into_bytes();
+    let mut strings = 0u64;
+    for p in 0..sep {
+        let op = buf[p];
+        for &c in &alpha {
+            if c == op {
+                continue;
+            }
+            buf[p] = c;
+            check_rejected(&orig, &buf, label)?;
+            strings += 1;
+            for q in p + 1..sep {
+                let oq = buf[q];
+                for &d in &alpha {
+                    if d == oq {
+                        continue;
+                    }
+                    buf[q] = d;
+                    check_rejected(&orig, &buf, label)?;
+                    strings += 1;
+                }
+                buf[q] = oq;
+            }
+        }
+        buf[p] = op;
+    }
+    ctx.evals_n(4 * strings);
+    ctx.class_n("corrupted-strings:hrp", strings);
+    ctx.nontrivial(&("hrp", rep.id));
+    Ok(())
+}
+
+/// fresh addresses of the whole domain, one or two random replacements in the data part
+fn sampled(t: &mut Tape, ctx: &mut Ctx) -> R {
+    let a = gen_ref_segwit(t);
+    let upper = t.chance(64);
+    let mut orig = a.encode();
+    if upper {
+        orig.make_ascii_uppercase();
+    }
+    let Some(sep) = orig.rfind('1') else {
+        return Err(Failure::panic("address without separator".into(), "src/props/c17.rs".into()));
+    };
+    let ds = sep + 1;
+    let n = orig.len() - ds;
+    let alpha = alphabet(upper);
+    let mut buf = orig.clone().into_bytes();
+    let two = t.bool();
+    let p = match t.below(4) {
+        0 => 0,              // version character
+        1 => n - 1 - t.below(if a.blinder.is_some() { 12 } else { 6 }), // checksum
+        _ => t.below(n),
+    };
+    let mut positions = vec![p];
+    if two {
+        let mut q = t.below(n - 1);
+        if q >= p {
+            q += 1;
+        }
+        positions.push(q);
+    }
+    for &i in &positions {
+        let cur = alpha.iter().position(|&c| c == buf[ds + i]).unwrap_or(0);
+        buf[ds + i] = alpha[(cur + 1 + t.below(31)) % 32];
+    }
+    check_rejected(&orig, &buf, "sampled corruption of the data part")?;
+    ctx.evals_n(4);
+    ctx.class(&format!(
+        "sampled:{}:{}:{}",
+        if a.blinder.is_some() { "blinded" } else { "unblinded" },
+        if two { "two" } else { "one" },
+        if positions.contains(&0) { "version-character" } else { "other" }
+    ));
+    ctx.nontrivial(&buf);
+    if ctx.wants_sample("sampled") {
+        ctx.sample("sampled", || json!({"address": orig, "corrupted": String::from_utf8_lossy(&buf), "positions_in_data_part": positions}));
+    }
+    Ok(())
+}
 
 pub fn property() -> Property {
-    Property { id: "C17", rule: "", assumptions: &[], subs: vec![], known: vec![] }
+    Property {
+        id: "C17",
+        rule: "single_and_double_exhaustive: representatives = {bech32 v0/20, v0/32; bech32m v1/32, v2..16 at 2, 20, 40 bytes; \
+               blech32 / blech32m likewise with a pool blinding key} (quick: 12 representatives, one per class, network and \
+               letter case rotating with class and run seed; thorough: 144 = all 72 (class, network, case) combinations x 2 \
+               payloads), payloads from the run seed. For each representative EVERY replacement of one data-part character (version character and checksum \
+               included) by each of the 31 other alphabet characters and EVERY pair of such replacements is parsed with \
+               from_str and parse_with_params under all three parameter sets; all four must fail. Work unit (index) = \
+               (representative, first corrupted position). hrp_corruptions: for all 72 shapes (x 4 payloads thorough) every 1- and 2-character \
+               replacement of the human-readable part over [a-z0-9] ([A-Z0-9] for upper-case representatives). sampled: tape-generated \
+               addresses of the whole C06 domain with 1-2 random replacements. Every corrupted string is non-trivial; \
+               `evaluations` counts parser calls (4 per corrupted string) and `distinct_nontrivial` counts the work units \
+               (representative, first position) of the enumeration - not strings, which are counted in the histogram \
+               `corrupted-strings:*` - plus the distinct sampled strings.",
+        assumptions: &[
+            "representatives are produced by the harness's reference encoders (self-tested against the repository's fixed addresses) and each is checked to parse before it is corrupted",
+            "completeness is per enumerated representative; other addresses are sampled",
+        ],
+        subs: vec![
+            Sub { name: "single_and_double_exhaustive", kind: Kind::Index { count: total_chunks, exhaustive: true, f: single_and_double_exhaustive } },
+            Sub { name: "hrp_corruptions", kind: Kind::Index { count: n_hrp_reps, exhaustive: true, f: hrp_corruptions } },
+            Sub { name: "sampled", kind: Kind::Tape { max_len: 200, quick: 100_000, thorough: 3_000_000, f: sampled } },
+        ],
+        known: vec![],
+    }
 }
